@@ -195,7 +195,8 @@ class Run(object):
         for e in self.checker_errors:
             print('CHECKER-ERROR: %s' % e, file=sys.stderr)
         if status == 2:
-            for u in self.undecided[:20]:
+            unc = [u for u in self.undecided if not any(fnmatch.fnmatch(u['name'], p) for p in self.covered_by_standin)]
+            for u in unc[:20]:
                 print('UNDECIDED: %s (%s)' % (u['name'], u.get('detail')), file=sys.stderr)
         return status
 
